@@ -274,6 +274,8 @@ class Context:
             if isinstance(this_val, str):
                 return "[object String]"
             if isinstance(this_val, JSArray):
+                if getattr(this_val, "_is_arguments", False):
+                    return "[object Arguments]"
                 return "[object Array]"
             if callable(this_val) or isinstance(this_val, JSCallableObject):
                 return "[object Function]"
@@ -616,7 +618,7 @@ class Context:
         # Array.isArray()
         def is_array(*args):
             obj = args[0] if args else UNDEFINED
-            return isinstance(obj, JSArray)
+            return isinstance(obj, JSArray) and not getattr(obj, "_is_arguments", False)
 
         arr_constructor.set("isArray", is_array)
 
@@ -1111,7 +1113,7 @@ class Context:
                     raise JSTypeError("Converting circular structure to JSON")
                 open_holders.append(v)
                 try:
-                    if isinstance(v, JSArray):
+                    if isinstance(v, JSArray) and not getattr(v, "_is_arguments", False):
                         # For arrays, undefined becomes null
                         items = [
                             serialize(prepare(v, str(i), e), indent + gap) or "null"
@@ -1120,6 +1122,17 @@ class Context:
                         return layout("[]", items, indent)
                     # For objects, skip undefined values
                     members = []
+                    if getattr(v, "_is_arguments", False):
+                        # An arguments object is an ordinary object with index keys
+                        for i, e in enumerate(list(v._elements)):
+                            if allowed_keys is not None and str(i) not in allowed_keys:
+                                continue
+                            text = serialize(prepare(v, str(i), e), indent + gap)
+                            if text is not None:
+                                members.append(
+                                    quote(str(i)) + (": " if gap else ":") + text
+                                )
+                        return layout("{}", members, indent)
                     if hasattr(v, "get_index") and hasattr(v, "_element_size"):
                         # A typed array is an object whose keys are its indices
                         for i in range(v.length):
